@@ -1,47 +1,65 @@
-"""C07 — System Start/Stop/context-cancel state machine (micro-step model; lock-step traces of the instrumented
-system.go under the controlled scheduler + real-time differential runs on real systems)."""
+"""C07 — System Start/Stop/context-cancel state machine (micro-step model merged with the two mutexes of system.go;
+lock-step traces of the instrumented system.go / system_chains.go under the controlled scheduler + real-time differential
+runs on real systems)."""
 
 COMPONENTS = {
     "syslife": {
-        "coq_run_module": "System.LifecycleRun",
+        "coq_run_module": "System.LifeLockRun",
+        "run": "run_syslife2",
         "accessors": {"internal/actor/xv_syslife_verif.go": "acc/actor/xv_syslife_verif.go",
                       "internal/scheduler/xv_sched_verif.go": "acc/scheduler/xv_sched_verif.go"},
         "instrument": {"profile": "system", "files": ["internal/actor/system.go", "internal/actor/system_chains.go"]},
         "timeout": {"quick": 600, "thorough": 3000},
-        "what": ("real System.Start/Stop/stop + context-guard goroutine. (A) real-time: real systems (actor trees of depth 0-3, with/without remoting "
-                 "on loopback, start-up failure, trees that do not terminate within the timeout), every order of <=2 Start, <=3 Stop, <=1 cancel "
+        "what": ("real System.Start/Stop/stop + context-guard goroutine + System.ActorOf. (A) real-time: real systems (actor trees of depth 0-3, with/without remoting "
+                 "on loopback, single-node cluster, start-up failure, trees that do not terminate within the timeout), every order of <=2 Start, <=3 Stop, <=1 cancel "
                  "sequentially and concurrently under GOMAXPROCS variations; the observed return-code vector must be admissible for the model's "
                  "call-level specification (Lifecycle.admissible); first of all 400 (quick) Start || Stop (|| Stop / cancel / Start) races on systems WITH metrics "
                  "(the start-up chain takes actorOfLock under statusLock; no TCP port) under a 3 s watchdog - a lock-order deadlock is reported as "
-                 "c07-start-stop-deadlock naming, per lock, the call site that holds it and the call sites blocked in front of it. "
-                 "(B) lock-step: system.go / system_chains.go instrumented from the current source "
-                 "(statusLock AND actorOfLock, the s.Context / s.clusterContext reads, Kill(root), cancel, the select, scheduler.Stop, ctx.Done) run under the "
-                 "controlled scheduler, on plain and on metrics-enabled systems; every step's (label, status, s.Context!=nil, ctx cancelled, #guard goroutines), the per-call results and the "
-                 "final verdict are replayed on System/Lifecycle.v; all threads parked in front of held locks = c07-start-stop-deadlock with the lock cycle and the schedule; "
-                 "per run the lock operations of every thread are checked against the lock view System/LockOrder.v (respects statusLock < actorOfLock, is a program of that thread kind)"),
+                 "c07-start-stop-deadlock naming, per lock, the call site that holds it and the call sites blocked in front of it; after ANY effective stop has returned "
+                 "(nil or the timeout arm, blocking trees included) the system context must be cancelled and the context-guard goroutine gone "
+                 "(c07-stop-returned-context-not-cancelled, c07-guard-goroutine-outlives-stop); Stop || a goroutine looping System.ActorOf: every actor whose ActorOf "
+                 "returned a reference receives its own OnKilled and the root terminates (c07-actorof-races-stop:root-never-terminates / :actor-survives-stop). "
+                 "(B) lock-step: system.go / system_chains.go instrumented from the current source by a SEMANTIC profile (an operation is found wherever it is written - "
+                 "helper method, closure - and labelled by what it does: Lock:status, Lock:actorOf, stmt:NewContext, stmt:if-Metrics, stmt:if-clusterContext, call:Leave, "
+                 "stmt:if-Context, call:Kill, call:cancel, select:guardClosed, call:scheduler.Stop, recv:ctxDone; the status lock is the mutex locked by a function that reads / "
+                 "writes .status, whatever its name; the stop select may use time.After or any timer channel) run under the controlled scheduler on plain, metrics-enabled, "
+                 "remoting-enabled and single-node-cluster systems (real TCP listener / real cluster node on loopback; Leave() of the effective stop included), on systems whose "
+                 "root creation fails (Start's failure path), and with external System.ActorOf callers; every step's (label, status, s.Context!=nil, ctx cancelled, #guard goroutines, "
+                 "holder of statusLock, holder of actorOfLock), the per-call results and the final verdict are replayed on the MERGED machine System/LifeLock.v (replay kind 4); "
+                 "all threads parked in front of held locks = c07-start-stop-deadlock with the lock cycle and the schedule; per run the lock operations of every thread are checked "
+                 "against the lock view System/LockOrder.v; a controlled run that makes no progress for 25 s (an uninstrumented goroutine / timer / callback is involved) ends the "
+                 "harness at once with HARNESS-DID-NOT-COMPLETE (broken correspondence, not a failing input)"),
     },
 }
 
 PROPERTIES = {
     "C07": {
         "components": ["syslife"],
-        "rule": ("lock-step: depth-first enumeration with a preemption bound over 12 hand-picked call multisets (plain systems) and 6 (metrics-enabled systems: the "
-                 "step in front of `if system.options.Metrics != nil` is not reported, the model's chain step is the one starting at the acquisition of actorOfLock) "
-                 "plus seeded random multisets, one in five on a metrics-enabled system (<=2 Start, "
-                 "<=3 Stop with/without timeout, <=1 cancel) under random and sticky schedulers, one case = one complete schedule (timer firings and root "
-                 "termination are schedule events); real-time: one case = one scenario with its observed return codes. distinct = distinct "
-                 "(configuration, schedule) / (scenario, outcome vector); non-trivial = at least two context switches / at least three calls"),
+        "rule": ("lock-step: depth-first enumeration with a preemption bound over 12 hand-picked call multisets (plain systems), 6 (metrics-enabled), 4 with 1-2 external "
+                 "System.ActorOf callers, 6 on systems whose root creation fails, 5 on remoting / single-node-cluster systems on loopback, "
+                 "plus seeded random multisets (<=2 Start, <=3 Stop with/without timeout, <=1 cancel; one in five metrics-enabled, one in seven root-fails, one in six with external "
+                 "ActorOf callers, one in fifty clustered) under random and sticky schedulers, one case = one complete schedule (timer firings, root "
+                 "termination and leave completion are schedule events); real-time: one case = one scenario with its observed return codes. distinct = distinct "
+                 "(configuration, schedule) / (scenario, outcome vector); non-trivial = at least two context switches / at least three calls. Seeds >= 1000 (the ones bin/check uses for "
+                 "its targeted search after a correspondence break) run a reduced real-time tier: that tier does not depend on the seed except for which quarter of the longest sequences it samples"),
         "modelled_not_verified": [
             "M1: sync.Mutex gives mutual exclusion; the switch under statusLock is one atomic step; M3: goroutine scheduling = arbitrary interleaving of the instrumented steps "
             "(the reads of s.Context / s.clusterContext in stop take place after stop's own critical section, the writes inside Start's: ordered by statusLock)",
-            "M6: virtual time; time.After(d) fires no earlier than d",
-            "termination of the actor tree after Kill(root) (closing guardClosedSignal) is an environment event (C06's concern); cluster Leave completion is an environment event (no timeout in the code)",
+            "M6: virtual time; time.After(d) / a timer channel fires no earlier than d",
+            "termination of a single killed actor / of the tree after Kill(root) (closing guardClosedSignal) is an environment event (C06's concern); cluster Leave completion is an "
+            "environment event (no timeout in the code; it can only happen if the helper actor of Leave() was created: LifeLock.leaveHelper)",
+            "Context.ActorOf and the deferred actorOfLock.Unlock are not scheduling points of the instrumented code: in the merged machine they are steps of their own, in the replay "
+            "part of the macro step that starts at actorOfLock.Lock(); Context.ActorOf never blocks on another thread (childrenLock, futureLock ... are leaf locks; a user actor's "
+            "OnPrelaunch that calls back into System.Start / Stop / ActorOf is user error)",
+            "leaveLock of cluster.Context (taken by Leave() holding nothing, released before the blocking wait) is not modelled: among the threads of the model only the one effective stop calls Leave()",
+            "System/RootSpawn.v (System.ActorOf racing the root's OnKill, theorems C07_actorof_*): the root's mailbox goroutine and the inside of Context.ActorOf are not under the "
+            "controlled scheduler; the tie to the code is the pair of regression monitors c07-actorof-races-stop:* in both tiers (every actor whose System.ActorOf returned a reference "
+            "receives its own OnKilled once Stop / cancel has taken effect, and the root terminates) and the lock-step replay (outcome 1 / 2 of an external caller's step is rejected by the model)",
             "the call-level specification Lifecycle.admissible (used by the real-time tier) shares status_after / the result tables with the theorems but is not itself proved equivalent to the micro-step model",
             "goroutines owned by go-quartz, net and the Go runtime are outside the model (the real-time leak monitor looks at them on the implementation only)",
-            "lock view (System/LockOrder.v, theorems C07_lock_*): a separate machine - the projection of Start / stop / guard / System.ActorOf onto Acq / Rel / Wait / Work programs with the "
-            "start-up chain refined into its k ActorOf calls; it is NOT proved to be a refinement of the micro-step model (which keeps the chain as one step under statusLock); its tie to the "
-            "code is the per-thread lock-operation check of the lock-step harness (only the two instrumented mutexes statusLock and actorOfLock; Context.childrenLock, futureLock etc. taken "
-            "inside Context.ActorOf are leaf locks outside this view; clustered / remoting start-up chains are modelled (k up to 5) but exercised by the real-time tier only)",
+            "lock view (System/LockOrder.v, theorems C07_lock_*): the generic lock-hierarchy theorem and the straight-line programs the per-thread lock-operation check of the lock-step "
+            "harness compares with (kind 3); deadlock freedom of the life-cycle code itself is now C07_merged_no_deadlock on the merged machine, which the lock-step replay is made on; "
+            "that every thread's lock operations in the merged machine form one of the LockOrder programs is checked per run, not proved",
         ],
     },
 }
@@ -54,16 +72,24 @@ META = {
                  "return values as a function of the linearisation order of the status switches, one-way status, exactly one effective stop / one Kill(root), "
                  "cancel = Stop, termination of the guard goroutine once the context is cancelled, Stop terminates the system (every stop that returns nil "
                  "while a root exists issued exactly one Kill(root), cancelled the context and saw guardClosedSignal closed; the kill is skipped only when "
-                 "root creation itself failed). Start's critical section (status switch + whole start-up chain under statusLock, /repo commit 0843af8) is modelled; "
-                 "the monitor stop-skipped-kill-and-cancel stays armed against the Start/Stop race that commit repaired. "
-                 "Lock order: for every population of Start / Stop / guard / external System.ActorOf / cancel threads (start-up chain with any number of ActorOf calls under statusLock, "
-                 "clustered stop taking actorOfLock in Leave) and every interleaving - mutual exclusion of statusLock and actorOfLock, the wait-for relation is acyclic (a thread in front of a lock "
-                 "holds only lower-ranked locks; whoever waits for statusLock holds nothing), no deadlock on locks (generic lock-hierarchy theorem C07_lock_hierarchy_sound + C07_lock_programs_ordered); "
+                 "root creation itself failed). Start's critical section (status switch + whole start-up chain under statusLock, /repo commit 0843af8) is modelled. "
+                 "ONE machine for life cycle and locks (System/LifeLock.v, C07_merged_*): the micro-step model plus actorOfLock, the start-up chain refined into its System.ActorOf calls "
+                 "(@metrics / @remoting / @cluster / proxy manager / singleton manager, from the configuration) executed under statusLock, Leave() refined into its ActorOf call, any number of "
+                 "external System.ActorOf callers - it refines the micro-step model step by step (C07_merged_refines: every theorem holds of its abstract part), both locks are "
+                 "mutual-exclusion locks, the hierarchy statusLock < actorOfLock holds (whoever stands in front of statusLock or waits for the environment holds nothing), and no reachable "
+                 "state is a deadlock with BOTH locks (C07_merged_no_deadlock: wait-for chains have length <= 2 and end in a thread that can step), bounded own steps chain included. "
+                 "Every stop that gets through cancels the context BEFORE its select: once an effective stop has returned, nil or stop-failed, the context is cancelled, and every "
+                 "quiescent state with status stop has all threads finished, the guard goroutine included (C07_returned_stop_cancelled, C07_stopped_system_quiesces). "
+                 "System.ActorOf racing Stop (System/RootSpawn.v): with the re-read of the root's state after the registration of the child (/repo 6438ab6, a defect found by this check) "
+                 "every registered child is killed, the root never waits for a child nobody kills, at quiescence everything has terminated - for all interleavings; the stale read "
+                 "provably orphans a child / leaves a survivor (C07_actorof_stale_read_*). "
+                 "Lock view: generic lock-hierarchy theorem C07_lock_hierarchy_sound + C07_lock_programs_ordered; "
                  "the inverted stop (actorOfLock before statusLock) is rejected and provably deadlocks (C07_lock_inversion_deadlocks)."),
         "design_ref": "DESIGN.md section 4 C07",
-        "note": ("Trusted: Coq kernel; extraction; AST instrumenter (profile system) + controlled scheduler (harness/instr, harness/vsched); the harness's "
+        "note": ("Trusted: Coq kernel; extraction; AST instrumenter (profile system, semantic labels) + controlled scheduler (harness/instr, harness/vsched); the harness's "
                  "goroutine-dump based leak monitor; M1, M3, M6; fairness of the Go scheduler for liveness."),
-        "technique": ("Coq proof (inductive invariants of a small-step concurrent machine, all thread populations and schedules) + lock-step correspondence against the "
+        "technique": ("Coq proof (inductive invariants of a small-step concurrent machine, all thread populations and schedules; step-by-step refinement between the merged and the "
+                      "micro-step machine) + lock-step correspondence against the "
                       "instrumented real system.go under a controlled scheduler + real-time differential runs with property monitors"),
     },
 }
